@@ -166,9 +166,8 @@ def _flags(pc, stem):
     return out
 
 
-def _closing_task(core):
-    """the task spawned per subscription: a closing notification is sent at most once, only when handler AND acceptance completed, and it is built
-    from this subscription's id and method"""
+def _closing_task_paths(core):
+    """explores the task spawned per subscription (register_subscription's async block); returns body, executor, paths and the two outcome symbols"""
     b = R.find_body(core, r"^fn rpc_module::<impl at core/src/server/rpc_module\.rs:[\d: ]+>::register_subscription::\{closure#0\}::\{closure#0\}\(_1: Pin<&mut \{async block@")
     joined = z3.BitVec("try_join.outcome", 8)       # 0 Ready(Ok) 1 Ready(Err) 2 Pending
     kinds = R.source_tables()["enums"]["SubscriptionCloseResponse"]
@@ -204,6 +203,14 @@ def _closing_task(core):
     models = [(r"as (futures_util::|std::future::)?Future>::poll$", m_poll), (r"as IntoSubscriptionCloseResponse>::into_response$", m_into_response),
               (r"^sub_message_to_json$|^subscription::sub_err_to_json$", lambda ex, st, c, a, d, s: Opaque(z3.Const("closing_json", OBJ)))] + list(SQ.TRY_MODELS) + list(M.TRACING_MODELS)
     ex, ctx, paths = P.explore(core, b, extra_models=models, max_paths=4000)
+    return b, ex, paths, joined, close_kind
+
+
+def _closing_task(core):
+    """the task spawned per subscription: a closing notification is sent at most once, only when handler AND acceptance completed, and it is built
+    from this subscription's id and method"""
+    b, ex, paths, joined, close_kind = _closing_task_paths(core)
+    kinds = R.source_tables()["enums"]["SubscriptionCloseResponse"]
     bad = [(p.kind, p.detail) for p in paths if p.kind in ("unsupported", "limit", "unwound", "panic")]
     cap_sub, cap_m = P.capture_index(b, "sub_id"), P.capture_index(b, "method")
     viol, reach = [], {"sent": [], "discarded": [], "nothing-to-send": []}
